@@ -93,4 +93,7 @@ pub(crate) fn ring_closed<T: CoordNum>(ls: &LineString<T>) -> bool {
 /// model of the libm function behind `f64::hypot` (a foreign C function Kani cannot execute): sqrt of the sum
 /// of squares.  ASSUMPTION where used: hypot(a, b) == sqrt(a*a + b*b) (exact on the 3-4-5 style inputs used).
 #[cfg(kani)]
-pub(crate) fn hypot_model(a: f64, b: f64) -> f64 { (a * a + b * b).sqrt() }
+pub(crate) fn hypot_model(a: f64, b: f64) -> f64 {
+    // exact (and constant-foldable / sqrt-free) on axis-parallel arguments
+    if b == 0.0 { a.abs() } else if a == 0.0 { b.abs() } else { (a * a + b * b).sqrt() }
+}
